@@ -745,7 +745,7 @@ func (b *Bucket) _forEachPageNode(pgId common.Pgid, depth int, fn func(*common.P
 // spill writes all the nodes for this bucket to dirty pages.
 func (b *Bucket) spill() error {
 	// Spill all child buckets first.
-	for name, child := range b.buckets {
+	for name, child := range verifOrdered(b.buckets) {
 		// If the child bucket is small enough and it has no child buckets then
 		// write it inline into the parent bucket's page. Otherwise spill it
 		// like a normal bucket and make the parent value a pointer to the page.
@@ -851,10 +851,10 @@ func (b *Bucket) write() []byte {
 
 // rebalance attempts to balance all nodes.
 func (b *Bucket) rebalance() {
-	for _, n := range b.nodes {
+	for _, n := range verifOrdered(b.nodes) {
 		n.rebalance()
 	}
-	for _, child := range b.buckets {
+	for _, child := range verifOrdered(b.buckets) {
 		child.rebalance()
 	}
 }
